@@ -70,15 +70,19 @@ func (s psfSub) String() string {
 type psfErrCancelCtx struct {
 	context.Context
 	armed  atomic.Bool
+	before bool // the cancellation lands just before the answer is computed (else: just after a nil answer)
 	cancel context.CancelFunc
 }
 
 func (c *psfErrCancelCtx) Err() error {
-	e := c.Context.Err()
-	if e == nil && c.armed.CompareAndSwap(true, false) {
-		defer c.cancel()
+	if c.armed.CompareAndSwap(true, false) {
+		if c.before {
+			c.cancel()
+		} else {
+			defer c.cancel()
+		}
 	}
-	return e
+	return c.Context.Err()
 }
 
 func psfYield(n int) {
@@ -297,7 +301,7 @@ func TestPubSubFree(t *testing.T) {
 					defer cancel()
 					var ctx context.Context = inner
 					if s.errCancel {
-						w := &psfErrCancelCtx{Context: inner, cancel: cancel}
+						w := &psfErrCancelCtx{Context: inner, cancel: cancel, before: s.pre%2 == 0}
 						w.armed.Store(true)
 						ctx = w
 					}
